@@ -416,4 +416,61 @@ theorem likeRef_iff (p v : Bytes) : likeRef p v = true ↔ LikeMatch p v := by
       · rintro ⟨pre, suf, h⟩; exact ⟨pre, suf, h, (fun h => (by cases h)), (fun h => (by cases h))⟩
       · rintro ⟨pre, suf, h, _, _⟩; exact ⟨pre, suf, h⟩
 
+/-! ### trie blocks: the split loses no key and reads do not depend on it -/
+
+theorem numBlocks_mul_ge (len bs : Nat) (hbs : 0 < bs) : len ≤ numBlocks len bs * bs := by
+  unfold numBlocks
+  have h := Nat.div_add_mod len bs
+  have hm := Nat.mod_lt len hbs
+  by_cases h0 : len % bs = 0
+  · simp only [h0, ne_eq, not_true_eq_false, ite_false, Nat.add_zero]
+    rw [h0, Nat.add_zero] at h
+    rw [Nat.mul_comm]; omega
+  · simp only [h0, ne_eq, not_false_eq_true, ite_true]
+    rw [Nat.add_mul, Nat.one_mul, Nat.mul_comm (len / bs) bs]
+    omega
+
+theorem flatten_range_blocks {α : Type} (bs : Nat) (l : List α) (j : Nat) :
+    ((List.range j).map (fun i => (l.drop (i * bs)).take bs)).flatten = l.take (j * bs) := by
+  induction j with
+  | zero => simp
+  | succ j ih =>
+    rw [List.range_succ, List.map_append, List.flatten_append, ih]
+    simp only [List.map_cons, List.map_nil, List.flatten_cons, List.flatten_nil, List.append_nil]
+    rw [Nat.succ_mul, List.take_add]
+
+/-- **blocks_cover**: cutting a bucket's sorted entries into blocks of `bs > 0` keys keeps every
+entry, in order (with `numBlocks = len / bs` alone the tail `len % bs` would be lost) -/
+theorem blocks_cover {α : Type} (bs : Nat) (hbs : 0 < bs) (l : List α) : (blocksOf bs l).flatten = l := by
+  unfold blocksOf
+  rw [flatten_range_blocks]
+  exact List.take_of_length_le (numBlocks_mul_ge l.length bs hbs)
+
+theorem partFind_append (a b : DictPart) (kid : KeyId) (v : Bytes) :
+    partFind (a ++ b) kid v = match partFind a kid v with
+      | some id => some id
+      | none => partFind b kid v := by
+  unfold partFind
+  rw [List.find?_append]
+  cases List.find? (fun e => e.1 == kid && e.2.1 == v) a <;> simp
+
+/-- block-by-block `GetValue` = lookup in the concatenation -/
+theorem blocksFind_flatten (blocks : List DictPart) (kid : KeyId) (v : Bytes) :
+    blocksFind blocks kid v = partFind blocks.flatten kid v := by
+  induction blocks with
+  | nil => simp [blocksFind, partFind]
+  | cons b t ih =>
+    simp only [blocksFind, List.flatten_cons, partFind_append, ih]
+    cases partFind b kid v <;> rfl
+
+/-- block-by-block scan = scan of the concatenation -/
+theorem blocksScan_flatten (blocks : List DictPart) (kid : KeyId) (pre : Bytes) (check : Bytes → Bool) :
+    blocksScan blocks kid pre check =
+      (blocks.flatten.filter (fun e => e.1 == kid && pre.isPrefixOf e.2.1 && check e.2.1)).map (·.2.2) := by
+  induction blocks with
+  | nil => simp [blocksScan]
+  | cons b t ih =>
+    unfold blocksScan at ih ⊢
+    simp only [List.flatMap_cons, List.flatten_cons, List.filter_append, List.map_append, ih]
+
 end LinVerif.TagFilter
